@@ -85,6 +85,11 @@ def lit_kind(value):
     return 'str'
 
 
+def _s(x):
+    """Plain str (lark Tokens are str subclasses with their own repr)."""
+    return str.__str__(x) if isinstance(x, str) else x
+
+
 def to_model(node):
     """Model tree of a library expression AST (structure only, no types).
 
@@ -101,24 +106,24 @@ def to_model(node):
     if c == 'HplThisMessage':
         return ('this',)
     if c == 'HplVarReference':
-        return ('var', node.token[1:])
+        return ('var', _s(node.token)[1:])
     if c == 'HplSet':
         return ('set', tuple(to_model(v) for v in node.values))
     if c == 'HplRange':
         return ('range', to_model(node.min_value), to_model(node.max_value), bool(node.exclude_min), bool(node.exclude_max))
     if c == 'HplQuantifier':
-        return ('q', node.quantifier.value, node.variable, to_model(node.domain), to_model(node.condition))
+        return ('q', _s(node.quantifier.value), _s(node.variable), to_model(node.domain), to_model(node.condition))
     if c == 'HplUnaryOperator':
-        return ('un', node.operator.token, to_model(node.operand))
+        return ('un', _s(node.operator.token), to_model(node.operand))
     if c == 'HplBinaryOperator':
-        return ('bin', node.operator.token, to_model(node.operand1), to_model(node.operand2))
+        return ('bin', _s(node.operator.token), to_model(node.operand1), to_model(node.operand2))
     if c == 'HplFunctionCall':
         args = tuple(to_model(a) for a in node.arguments)
         if len(args) == 1:
-            return ('call', node.function.name, args[0])
-        return ('calln', node.function.name, args)
+            return ('call', _s(node.function.name), args[0])
+        return ('calln', _s(node.function.name), args)
     if c == 'HplFieldAccess':
-        return ('field', to_model(node.message), node.field)
+        return ('field', to_model(node.message), _s(node.field))
     if c == 'HplArrayAccess':
         return ('index', to_model(node.array), to_model(node.index))
     if c == 'HplPredicateExpression':
